@@ -363,6 +363,14 @@ def _keys(ctx) -> None:
     def truth(t):
         """truth of a path condition for key = Vector([]) (a Vector, no schema, length 0); None = not determined"""
         k = t[0]
+        if k == "const" and isinstance(t[2], bool):
+            return t[2]
+        if k == "ifexp":                              # (a predicate helper evaluated in line: guard clauses become a conditional)
+            c = truth(t[1])
+            if c is None:
+                a_, b_ = truth(t[2]), truth(t[3])
+                return a_ if a_ == b_ else None
+            return truth(t[2] if c else t[3])
         if k == "bool":
             vs = [truth(x) for x in t[2]]
             if t[1] == "and":
